@@ -232,8 +232,8 @@ def run_analytic(case, counters, viol, nontrivial):
         smcrun.install()
         inner = BlackJAXSMC.mutate
 
-        def mutate(self, particles, beta, n_steps=None):
-            out = inner(self, particles, beta, n_steps=n_steps)
+        def mutate(self, particles, beta, *aa, **kk):
+            out = inner(self, particles, beta, *aa, **kk)
             # evaluate the function that was handed to the kernel on concrete points (transform state of this mutation)
             fn = captured[-1]
             import jax.numpy as jnp
